@@ -733,6 +733,28 @@ Proof.
     eexists _, _. split; [reflexivity|]. auto.
 Qed.
 
+(* SetSessionTicketKeys overrides every other key source: whatever the Config held before — a user-set
+   SessionTicketKey field, automatically rotated keys, an earlier list — after the call ticketKeys returns exactly
+   the new list, now and on every later call (any clock, any randomness), and leaves it installed. *)
+Theorem set_keys_overrides c now b bs c1 :
+  c_disabled c = false -> set_session_ticket_keys c now (b :: bs) = Ok c1 ->
+  forall now1 rnd1, (bytes_eqb (c_stk c) zero32 = false \/ (32 <= length rnd1)%nat) ->
+  exists c2 rnd2, ticket_keys c1 now1 rnd1 = Ok (map ticket_key_from_bytes (b :: bs), c2, rnd2) /\
+    forall now2 rnd3, exists c3, ticket_keys c2 now2 rnd3 = Ok (map ticket_key_from_bytes (b :: bs), c3, rnd3).
+Proof.
+  intros Hd Hset now1 rnd1 Hr. cbn [Ticket.set_session_ticket_keys] in Hset. apply ok_inj in Hset.
+  assert (K1 : c_keys c1 <> []) by (subst c1; cbn; discriminate).
+  assert (D1 : c_disabled c1 = false) by (subst c1; exact Hd).
+  assert (S1 : c_stk c1 = c_stk c) by (subst c1; reflexivity).
+  assert (M1 : map fst (c_keys c1) = map ticket_key_from_bytes (b :: bs)) by (subst c1; cbn [c_keys]; rewrite map_map; reflexivity).
+  rewrite <- S1 in Hr.
+  destruct (ticket_keys_explicit c1 now1 rnd1 D1 K1 Hr) as (c2 & rnd2 & T1 & Kk & Kd & Kz & _).
+  exists c2, rnd2. split; [rewrite T1, M1; reflexivity|].
+  intros now2 rnd3. assert (K2 : c_keys c2 <> []) by (rewrite Kk; exact K1).
+  destruct (ticket_keys_explicit c2 now2 rnd3 Kd K2 (or_introl Kz)) as (c3 & r3 & T2 & _ & _ & _ & Hr3).
+  rewrite (Hr3 Kz) in T2. exists c3. rewrite T2, Kk, M1. reflexivity.
+Qed.
+
 (* key rotation by SetSessionTicketKeys: only the last call matters *)
 Theorem rotate_last c now hist ks c' :
   Forall (fun l => l <> []) hist -> ks <> [] -> rotate c now (hist ++ [ks]) = Ok c' ->
